@@ -3215,6 +3215,7 @@ def _finalize_scan(block: ScanState, dtype) -> np.ndarray:
 
 
 def dask_groupby_scan(array, by, axes: T_Axes, agg: Scan) -> DaskArray:
+    import dask
     from dask.array import map_blocks
     from dask.array.reductions import cumreduction as scan
 
@@ -3233,7 +3234,7 @@ def dask_groupby_scan(array, by, axes: T_Axes, agg: Scan) -> DaskArray:
         array,
         dtype=array.dtype,
         meta=array._meta,
-        name="groupby-scan-preprocess",
+        name="groupby-scan-preprocess-" + dask.base.tokenize(by, array),
     )
 
     scan_ = partial(chunk_scan, agg=agg)
